@@ -20,7 +20,11 @@ def run_impl(case):
     writable = rnd.random() < 0.75
     init = [rnd.getrandbits(dw) for _ in range(depth)] if rnd.random() < 0.7 else []
     dut = WishboneSRAM(size=size, data_width=dw, granularity=gran, writable=writable, init=init)
-    mem0 = init + [0] * (depth - len(init))
+    if rnd.random() < 0.3:
+        # the init image may also be (re)assigned through the `init` property after construction
+        init = [rnd.getrandbits(dw) for _ in range(depth)]
+        dut.init = init
+    mem0 = list(init) + [0] * (depth - len(init))
     lines = [f"case {depth} {dw} {gran} {int(writable)} " + " ".join(map(str, mem0))]
     sim = Simulator(simutil.wrap(dut))
     sim.add_clock(1e-6)
